@@ -289,13 +289,23 @@ impl<H, T> HeaderSliceWithLengthProtected<H, T> {
 
 impl<H: PartialOrd, T: ?Sized + PartialOrd> PartialOrd for HeaderSlice<HeaderWithLength<H>, T> {
     fn partial_cmp(&self, other: &Self) -> Option<Ordering> {
-        (&self.header.header, &self.slice).partial_cmp(&(&other.header.header, &other.slice))
+        // The recorded length comes last so that it only separates values that `==`
+        // (which includes it) also tells apart.
+        (&self.header.header, &self.slice, self.header.length).partial_cmp(&(
+            &other.header.header,
+            &other.slice,
+            other.header.length,
+        ))
     }
 }
 
 impl<H: Ord, T: ?Sized + Ord> Ord for HeaderSlice<HeaderWithLength<H>, T> {
     fn cmp(&self, other: &Self) -> Ordering {
-        (&self.header.header, &self.slice).cmp(&(&other.header.header, &other.slice))
+        (&self.header.header, &self.slice, self.header.length).cmp(&(
+            &other.header.header,
+            &other.slice,
+            other.header.length,
+        ))
     }
 }
 
